@@ -106,7 +106,7 @@ func runDim(in *DimIn) lib.Result {
 		}
 	}
 	var ordC []string
-	largestFirst := map[string]int{}
+	largestAt := -1
 	for _, ord := range in.Orders {
 		args := make([]*dimension.Dimension, len(ord))
 		idx := make([]string, len(ord))
@@ -118,7 +118,9 @@ func runDim(in *DimIn) lib.Result {
 				best, bestKey = j, string(ks[0])
 			}
 		}
-		largestFirst[fmt.Sprint(best)]++
+		if largestAt < 0 {
+			largestAt = best // position of the argument with the largest head, first order
+		}
 		gi := dimension.Intersection(args...)
 		gu := dimension.Union(args...)
 		ordC = append(ordC, fmt.Sprintf("(%s, %s, %s)", lib.List(idx), keyList(gi), keyList(gu)))
@@ -132,7 +134,7 @@ func runDim(in *DimIn) lib.Result {
 	coq := "CDim " + lib.List(opsC) + " " + lib.List(keysC) + " " + lib.List(ordC)
 	return lib.Result{Coq: coq, NonTrivial: len(dims) >= 2 && len(heads) >= 2,
 		Feat: map[string]interface{}{"kind": "dim", "dimensions": len(dims), "max_len": maxLen, "deletes": dels,
-			"orders": len(in.Orders), "distinct_heads": len(heads)}}
+			"orders": len(in.Orders), "distinct_heads": len(heads), "largest_head_at": largestAt}}
 }
 
 // ---------- storage level ----------
